@@ -50,7 +50,19 @@ def main():
         from harness import extract_c15
         extract_c15.regenerate()
 
-    for name, fn in [("C10", c10), ("C15", c15), ("C05", c05), ("C12", c12), ("C14", c14), ("C17", c17), ("C16", c16), ("C08", c08)]:
+    def c04():
+        from harness import c04_extract
+        c04_extract.regenerate()
+
+    def c15f():
+        from harness import c15_fields
+        c15_fields.regenerate()
+
+    def c19():
+        from harness import c19_extract
+        c19_extract.write_lean(c19_extract.extract(core.REPO), core.LEAN)
+
+    for name, fn in [("C19", c19), ("C04", c04), ("C15Fields", c15f), ("C10", c10), ("C15", c15), ("C05", c05), ("C12", c12), ("C14", c14), ("C17", c17), ("C16", c16), ("C08", c08)]:
         step(name, fn)
 
 
